@@ -217,7 +217,7 @@ func GenDInput(r *Rng, p GenParams, v *imgView, allowBig bool) DInput {
 	d.Md, d.MdSet = genMeta(r, d.Type, true)
 	if r.Chance(1, 5) {
 		d.TimeSet = true
-		d.Time = Pick(r, []int64{1, 1504657553, 1700000000, ZeroTime, -1, 4102444800})
+		d.Time = Pick(r, []int64{0, 1, 1504657553, 1700000000, ZeroTime, -1, 4102444800})
 	}
 	if r.Chance(1, 25) && n > 0 {
 		d.FailAfter = r.Intn(n + 1)
@@ -423,14 +423,25 @@ func GenHistory(r *Rng, id int, p GenParams) Case {
 			co.IDKind, co.TimeKind = 2, 2
 		}
 		co.CapSet, co.Cap = true, int64(len(dis)+2+r.Intn(3))
+		if k == 7 { // room for every add of the history
+			co.Cap = int64(len(dis) + len(ops) + r.Intn(2))
+		}
 		co.DIs = dis
 		v := &imgView{cap: int(co.Cap)}
 		for i, d := range dis {
 			v.note(d, uint32(i+1))
 		}
-		c.InitQueries = append(GenQueries(r, v, p.Queries), probeQueries(r)...)
+		// every typed accessor of every object, after creation and after each step
+		metaAll := func() []Query {
+			var qs []Query
+			for id := int64(1); id <= co.Cap; id++ {
+				qs = append(qs, Query{Kind: "meta", ID: uint32(id)})
+			}
+			return qs
+		}
+		c.InitQueries = append(append(GenQueries(r, v, p.Queries), probeQueries(r)...), metaAll()...)
 		for _, op := range ops {
-			c.Steps = append(c.Steps, Step{Op: op, Queries: append(GenQueries(r, v, p.Queries), probeQueries(r)...)})
+			c.Steps = append(c.Steps, Step{Op: op, Queries: append(append(GenQueries(r, v, p.Queries), probeQueries(r)...), metaAll()...)})
 		}
 		c.Tags = append(c.Tags, fmt.Sprintf("scenario-%d", k))
 		return c
@@ -474,6 +485,8 @@ func GenQueries(r *Rng, v *imgView, n int) []Query {
 		switch r.Intn(5) {
 		case 0:
 			qs = append(qs, Query{Kind: "data", ID: v.someID(r)})
+		case 1:
+			qs = append(qs, Query{Kind: "meta", ID: v.someID(r)})
 		default:
 			q := Query{Kind: "many"}
 			if r.Chance(2, 5) {
